@@ -136,6 +136,7 @@ class FxBuilder(Builder):
         self.frames = {}
         self._value_eq = None
         self.discr_domain = {}
+        self._tbl_cache = {}
 
     def default_inline(self, fn):
         return fn.krate in self.crates and len(fn.body.blocks) <= self.max_blocks and fn.def_path not in self.stop
@@ -239,6 +240,18 @@ class FxBuilder(Builder):
             if ty == "bool":
                 res = 1 if res else 0
             return ("const", res, ty)
+        if k in ("tbl", "index") and e[1][0] == "named" and e[2][0] == "const":
+            c = self.facts.consts.get(e[1][1])
+            if c is not None:
+                t = self.facts.types[c["ty"]]
+                if t["k"] == "array":
+                    et = self.facts.types[t["of"]]
+                    is64 = (et["k"] == "int" and et["w"] == 64) or (et["k"] == "adt" and et.get("path") == "owlchess_base::bitboard::Bitboard")
+                    if is64 and 0 <= e[2][1] < (t["len"] or 0):
+                        if e[1][1] not in self._tbl_cache:
+                            self._tbl_cache[e[1][1]] = self.facts.table_u64(e[1][1])
+                        return ("const", self._tbl_cache[e[1][1]][e[2][1]], "u64")
+            return None
         if k == "call" and len(e[2]) == 2 and e[1].split("::")[-1] in ("wrapping_add", "wrapping_sub"):
             a = self.fold(e[2][0])
             b = self.fold(e[2][1])
@@ -363,6 +376,13 @@ class FxBuilder(Builder):
             return ("index", self._load_local(fr, pe[1]), pe[2])
         return ("var", _root(pe)[2], "?")
 
+    def _is_newtype_local(self, fr, l):
+        t = self.facts.types[fr.body.locals[l]]
+        if t["k"] != "adt":
+            return False
+        a = self.facts.adts.get(t["key"])
+        return bool(a and a["kind"] == "struct" and len(a["variants"][0]["fields"]) == 1 and a["path"] in NEWTYPES_EQ)
+
     def _field_of(self, value, name, idx):
         """Field of a local's value that may be a base value with overrides and/or a merge of such."""
         if value[0] == "upd":
@@ -394,6 +414,12 @@ class FxBuilder(Builder):
                 fields = list(cur[3])
                 fields[pe[3]] = val
                 fr.state[r[2]] = ("agg", cur[1], cur[2], tuple(fields))
+            elif pe[0] == "field" and pe[1][0] == "local" and pe[2] == "0" and self._is_newtype_local(fr, r[2]):
+                # the only field of a newtype: the value itself (N() treats newtypes as transparent)
+                fr.state[r[2]] = val
+                nm = fr.body.names.get(r[2])
+                if nm and nodes is not None:
+                    nodes.append(("lstore", fr.fn.id, r[2], nm, val, site))
             elif pe[0] == "field" and pe[1][0] == "local":
                 # field update of a by-ref local whose value is not a literal aggregate: base value + overrides
                 base = cur if cur is not None else self.ev_local(fr, r[2])
